@@ -416,8 +416,11 @@ func fFanKind(kind int, harness string, conc func(i int) int, symSpec int, shape
 			bs = append(bs, histB{kind: kind, ops: ops, probes: []int{symSpec}, label: label + " A", big: true, noSym: true})
 			bs = append(bs, histB{kind: kind, ops: append(append([][2]int(nil), ops...), [2]int{opDelete, symSpec}), probes: []int{conc(0) | 1<<30}, label: label + " C", big: true})
 		} else {
-			bs = append(bs, histB{kind: kind, ops: append(append([][2]int(nil), ops...), [2]int{opInsert, symSpec}), probes: []int{symSpec}, label: label})
-			bs = append(bs, histB{kind: kind, ops: append(append([][2]int(nil), ops...), [2]int{opDelete, symSpec}), probes: []int{symSpec}, label: label})
+			if tot > 8 {
+				bs = append(bs, histB{kind: kind, ops: ops, probes: []int{symSpec}, label: label + " A", big: true, noSym: true})
+			}
+			bs = append(bs, histB{kind: kind, ops: append(append([][2]int(nil), ops...), [2]int{opInsert, symSpec}), probes: []int{symSpec}, label: label + " S"})
+			bs = append(bs, histB{kind: kind, ops: append(append([][2]int(nil), ops...), [2]int{opDelete, symSpec}), probes: []int{symSpec}, label: label + " S"})
 		}
 		for _, b := range bs {
 			sc := b.scn()
@@ -443,8 +446,8 @@ func fanKindsOpt(c *CheckRun, mask int, full bool, cheapOnly bool) []*Scenario {
 	var out []*Scenario
 	add := func(kind int, harness string, conc func(i int) int, sym int) {
 		for _, s := range fFanKind(kind, harness, conc, sym, shapes) {
-			if cheapOnly && strings.Contains(s.Label, " C/") {
-				continue
+			if cheapOnly && (strings.Contains(s.Label, " C/") || (strings.Contains(s.Label, " S/") && len(s.Params) > 5+2*9)) {
+				continue // bases of more than 8 keys keep only their update-free variant
 			}
 			s.Params[1] = mask
 			if mask&ckMap == 0 {
